@@ -31,4 +31,11 @@ for p in PROPS:
     else:
         m['not_applicable'].append({'property_id': i, 'reason': NOT_YET.get(i, 'not claimed yet: model, theorems and tie for this property are not built in this revision (planned, see DESIGN.md section 2)')})
 json.dump(m, open(HERE + '/MANIFEST.json', 'w'), indent=1)
+# known_findings.json = concatenation of the committed fragments known_findings.d/<ID>.json (never written by a check)
+kf = []
+for f in sorted(glob.glob(HERE + '/known_findings.d/*.json')):
+    kf += json.load(open(f))
+json.dump({'findings': kf,
+           'fixed_lines': [k.get('line') for k in kf if k.get('status') == 'fixed' and k.get('line')]},
+          open(HERE + '/known_findings.json', 'w'), indent=1)
 print('claimed', sorted(CLAIMED))
